@@ -107,11 +107,12 @@ def handle (j : Lean.Json) : Except String Lean.Json := do
       let keys ← decKeys j "keys"
       let key ← argStr j "key"
       let lits ← (← argArr j "lits").mapM (fun x => match x with | .str s => pure s.toList | _ => throw "lits: strings")
-      let q := jsonQueryFallback doc (some keys)
+      let cte := PonyVerif.Gen.JsonLits.traverseCatchesTypeError
+      let q := jsonQueryFallback cte doc (some keys)
       let nz : Lean.Json := match q with
         | .ok (some t) => .bool (jsonNonzero lits t)
         | _ => .null
-      let tv := traverseKeys doc keys
+      let tv := traverseKeys cte doc keys
       pure (Json.mkObj [
         ("traverse", encNav encDoc tv),
         ("python", encNav encDoc (pyNavigate doc keys)),
@@ -119,13 +120,13 @@ def handle (j : Lean.Json) : Except String Lean.Json := do
                   | .ok v => Json.mkObj [("ok", encDoc v)]
                   | .error .pathError => Json.mkObj [("error", "pathError")]
                   | .error .udfTypeError => Json.mkObj [("error", "udfTypeError")]),
-        ("extract1", encNav encDoc (pyJsonExtract1 doc (some keys))),
+        ("extract1", encNav encDoc (pyJsonExtract1 cte doc (some keys))),
         ("query", encNav encOptText q),
         ("nonzero", nz),
         ("truthy", match tv with | .ok v => .bool (pyTruthy v) | .error _ => .null),
         ("topOk", match tv with | .ok v => .bool v.topOk | .error _ => .null),
-        ("udfNonzero", encNav (fun b => Lean.Json.bool b) (pyJsonNonzero doc (some keys))),
-        ("contains", encNav (fun b => Lean.Json.bool b) (pyJsonContains doc (some keys) key.toList)),
+        ("udfNonzero", encNav (fun b => Lean.Json.bool b) (pyJsonNonzero cte doc (some keys))),
+        ("contains", encNav (fun b => Lean.Json.bool b) (pyJsonContains cte doc (some keys) key.toList)),
         ("pyIn", match tv with
                  | .ok v => (match pyIn key.toList v with | some b => .bool b | none => .null)
                  | .error _ => .null),
@@ -137,6 +138,8 @@ def handle (j : Lean.Json) : Except String Lean.Json := do
       | _ => pure (Json.mkObj [("ok", encOptText (pyJsonUnwrap none))])
   | "lits" =>
       pure (Json.mkObj [("sqlite", .arr (PonyVerif.Gen.JsonLits.sqliteNonzeroLits.map Lean.Json.str).toArray),
+                        ("cte", .bool PonyVerif.Gen.JsonLits.traverseCatchesTypeError),
+                        ("clamp", .bool PonyVerif.Gen.JsonLits.arraySliceClampsNegative),
                         ("base", .arr (baseLits.map (fun t => Lean.Json.str (String.ofList t))).toArray)])
   | "index" =>
       let v ← argInt j "value"
@@ -149,13 +152,14 @@ def handle (j : Lean.Json) : Except String Lean.Json := do
       let i ← optIntArg j "i"
       let a ← optIntArg j "a"
       let b ← optIntArg j "b"
+      let clamp := PonyVerif.Gen.JsonLits.arraySliceClampsNegative
       pure (Json.mkObj [
         ("index", match i with | some i => jOptI (sqliteArrayIndex xs i) | none => .null),
         ("udfIndex", match i with | some i => jOptI (pyArrayIndex xs i) | none => .null),
         ("pyIndex", match i with | some i => jOptI (listGet xs i) | none => .null),
         ("pgIndex", match i with | some i => jOptI (pgIndex xs i) | none => .null),
-        ("slice", jInts (sqliteArraySlice xs a b)),
-        ("udfSlice", jInts (pyArraySlice xs a b)),
+        ("slice", jInts (sqliteArraySlice clamp xs a b)),
+        ("udfSlice", jInts (pyArraySlice clamp xs a b)),
         ("pySlice", jInts (pySlice xs a b)),
         ("pgSlice", jInts (pgSlice xs a b))])
   | _ => throw s!"unknown op {op}"
